@@ -707,6 +707,14 @@ func fkCorpus(prop string) func() []any {
 		out = append(out, &fkInput{Prop: prop, Mode: "incl", LIB: fkRef{ID: 10, Num: 10}, First: 1, Kept: 0, Filter: 51, FailAt: -1,
 			History: []fkBlock{{ID: 3, Num: 3, Parent: 2, Lib: 1}, {ID: 10, Num: 10, Parent: 9, Lib: 5}, {ID: 11, Num: 11, Parent: 10, Lib: 10}},
 			Lookups: prop == "C18", Shape: "incl/corpus-root-announcement"})
+		// known finding C01-refeed-lib-above-self (model witness c01_wild_refeed_witness, replayed on the real Forkable): a block
+		// under the first streamable block that declares a LIB number ABOVE its own height makes BlockInCurrentChain return a LIB
+		// reference whose number overtakes real heights; block X is dropped unstored, the LIB number later decreases, and X fed
+		// again delivers Undo 4, New 5
+		out = append(out, &fkInput{Prop: prop, Mode: "excl", LIB: fkRef{ID: 1, Num: 10}, First: 12, Kept: 2, AllTrig: true, Filter: 51, FailAt: -1,
+			History: []fkBlock{{ID: 3, Num: 12, Parent: 2, Lib: 10}, {ID: 2, Num: 11, Parent: 1, Lib: 14}, {ID: 5, Num: 13, Parent: 3, Lib: 10},
+				{ID: 4, Num: 14, Parent: 3, Lib: 12}, {ID: 5, Num: 13, Parent: 3, Lib: 10}},
+			Lookups: prop == "C18", Shape: "excl/corpus-lib-above-self"})
 		return out
 	}
 }
